@@ -46,12 +46,3 @@ Definition flip (e : N * N * eattr) : N * N * eattr := let '(u, v, a) := e in (N
 Definition geq (g h : graph) : Prop :=
   Permutation (gnodes g) (gnodes h) /\ Permutation (map flip (gedges g)) (map flip (gedges h)).
 
-(** value objects: SynGraph / CanonicalGraph compare by the digest of the serialised canonical graph;
-    a SynRule compares the signatures of (left, right) and of the reaction-centre graph (after repair 6662066).
-    [ser] is the serialisation of the chosen back-end (ser_generic / ser_rank r / ser_nauty). *)
-Definition syngraph_eq {D} (digest : str -> D) (ser : graph -> str) (g h : graph) : Prop :=
-  digest (ser g) = digest (ser h).
-Record rule := Rule { r_rc : graph; r_left : graph; r_right : graph }.
-Definition synrule_eq {D} (digest : str -> D) (ser : graph -> str) (a b : rule) : Prop :=
-  (digest (ser (r_left a)), digest (ser (r_right a))) = (digest (ser (r_left b)), digest (ser (r_right b)))
-  /\ digest (ser (r_rc a)) = digest (ser (r_rc b)).
